@@ -157,11 +157,15 @@ func Databases(level int) []DBSpec {
 	var out []DBSpec
 	star := starRows()
 	vstar := star[:16]
+	// u differs from t in its duplicates (t: four rows twice; u: (2,1) three times, (0,0) twice), so
+	// that multiset-sensitive operators (EXCEPT ALL, INTERSECT ALL, joins of duplicates) see
+	// different multiplicities on the two sides
+	ustar := append(append([]R{}, star[:16]...), R{iv(2), iv(1)}, R{iv(2), iv(1)}, R{iv(0), iv(0)})
 	for _, l := range []string{"nokey", "idx", "ab"} {
 		if level == 0 && l == "ab" && false {
 			continue
 		}
-		out = append(out, DBSpec{Family: "star", Layout: l, T: map[string][]R{"t": star, "u": star, "v": vstar}})
+		out = append(out, DBSpec{Family: "star", Layout: l, T: map[string][]R{"t": star, "u": ustar, "v": vstar}})
 	}
 	if level == -2 { // mini-star: every row over {NULL,1,2}^2 once + two duplicates, indexed layouts
 		var mini []R
@@ -173,7 +177,8 @@ func Databases(level int) []DBSpec {
 		mini = append(mini, R{nil, nil}, R{iv(1), iv(1)})
 		out = nil
 		for _, l := range []string{"idx", "ab"} {
-			out = append(out, DBSpec{Family: "ministar", Layout: l, T: map[string][]R{"t": mini, "u": mini, "v": mini[:9]}})
+			umini := append(append([]R{}, mini[:9]...), R{iv(2), iv(1)}, R{iv(2), iv(1)})
+			out = append(out, DBSpec{Family: "ministar", Layout: l, T: map[string][]R{"t": mini, "u": umini, "v": mini[:9]}})
 		}
 		return out
 	}
